@@ -462,6 +462,15 @@ static void caseC02(uint64_t idx, vh::Rng& g)
 	if (overrideInput(al, a, &b)) kind = "input-file";
 	if (cliDue(idx)) cliPass("C02", al, a, &b);
 	CaseAlphabet ca(al); Aut A = mkExpl(a, ca), B = mkExpl(b, ca); maybeDerive(g, A, a, ca, kind); maybeDerive(g, B, b, ca, kind);
+	if (idx >= nEx && kind != "input-file" && g.chance(1, 6))
+	{	// forked operands: B starts as a copy of A (sharing its rule storage), then both are modified
+		// differently in place — parts of the storage stay shared, the automata differ
+		if (g.chance(1, 2)) B = A; else { Aut C(A); B = C; }
+		b = a; int na = g.range(0, 2), nb = g.range(1, 3);
+		for (int i = 0; i < na; ++i) mutateInPlace(g, al, A, a, ca);
+		for (int i = 0; i < nb; ++i) mutateInPlace(g, al, B, b, ca);
+		kind = "G6-forked-copies";
+	}
 	R->desc(caseText(al, a, &b)); R->count("gen:" + kind);
 	int rounds = g.chance(1, 5) ? 2 : 1;   // a fifth of the cases: the same operand objects again after one was modified in place
 	for (int round = 0; round < rounds; ++round)
